@@ -11,7 +11,9 @@
     19 its xmlns (empty value: no value item), 20 p:f, 21 v, 22 the processing instruction).
     The view of the store IS the dumped table in both views, field by field. *)
 From Coq Require Import List NArith Bool.
-From XmlRs Require Import Base.CPred Model.XDoc Model.Store Model.StoreCheck Model.StoreView Proofs.StoreXDocExample.
+From XmlRs Require Import Base.CPred Model.XDoc Proofs.XPathCanon Proofs.XPathRefine Proofs.XPathRefinePaths.
+From XmlRs Require Import Model.Store Model.StoreCheck Model.StoreView Proofs.DomTree Proofs.DomOrder Proofs.DomCheck
+  Proofs.StoreXDocReach Proofs.StoreXDocExample.
 Import ListNotations.
 Open Scope N_scope.
 
@@ -95,3 +97,20 @@ Proof. vm_compute. reflexivity. Qed.
 
 Example view_is_real_dump_rich_merged : xdoc_of_store rich_facts true rich_store = rich_merged_doc.
 Proof. vm_compute. reflexivity. Qed.
+
+(** a document WITH a document type: the bridge gives [DocInv], [SpecShape] and [NamesOk] (the
+    hypotheses of C05 in full), in both views *)
+Example rich_invariants :
+  TreeInv rich_store /\ OrderInv rich_store /\ doc_element rich_store <> None /\ doc_decl rich_store = Some 2 /\
+  DocInv rich_raw_doc /\ SpecShape rich_raw_doc /\ NamesOk rich_raw_doc /\
+  DocInv rich_merged_doc /\ SpecShape rich_merged_doc /\ NamesOk rich_merged_doc.
+Proof.
+  assert (T : TreeInv rich_store) by (apply tree_inv_b_sound; vm_compute; reflexivity).
+  assert (O : OrderInv rich_store) by (apply order_inv; [exact T | apply store_of_list_order_ok]).
+  assert (He : doc_element rich_store <> None) by (vm_compute; discriminate).
+  split; [exact T|]. split; [exact O|]. split; [exact He|]. split; [vm_compute; reflexivity|].
+  rewrite <- view_is_real_dump_rich_raw, <- view_is_real_dump_rich_merged.
+  split; [apply bridge_docinv; assumption|]. split; [apply bridge_shape; assumption|].
+  split; [apply bridge_names; assumption|]. split; [apply bridge_docinv; assumption|].
+  split; [apply bridge_shape; assumption | apply bridge_names; assumption].
+Qed.
